@@ -9,7 +9,7 @@
 From Coq Require Import List ZArith NArith Bool Arith Lia.
 Import ListNotations.
 From DD Require Import Base.Sx Base.PyStr Base.Value Base.ValueFacts Path.PathModel Diff.Tree Diff.DiffModel
-  Diff.DiffFaithful Delta.DeltaModel Delta.DeltaVerify Delta.DeltaVerifyIndep Delta.DeltaReverse Delta.DeltaReverseDiff Delta.DeltaReverseSym Delta.DeltaReverseDefault.
+  Diff.DiffFaithful Delta.DeltaModel Delta.DeltaVerify Delta.DeltaVerifyIndep Delta.DeltaReverse Delta.DeltaReverseDiff Delta.DeltaReverseSym Delta.DeltaReverseDefault Delta.DeltaReverseInplace Diff.DiffPaths.
 
 Definition ops_table_disjointb (tbl : list (path * list opcode)) : bool :=
   forallb (fun pe => ops_ok 0 (snd pe)) tbl.
@@ -146,6 +146,25 @@ Proof.
   eapply forallb_forall in H; [|exact Ha]. eapply forallb_forall in H; [|exact Hr].
   unfold is_kind in H. rewrite Ka, Kr, E, path_eqb_rfl in H. discriminate.
 Qed.
+
+(* ---- guards of the clash-case theorem ---- *)
+Definition ntpb (v : value) (p : path) : bool :=
+  match p with
+  | [] => true
+  | _ => match resolve v (removelast p) with Some o => negb (is_tuple o) | None => true end
+  end.
+Lemma ntpb_sound v p : ntpb v p = true -> ntp v p.
+Proof.
+  unfold ntpb, ntp. destruct p; [intros _; exact I|]. destruct (resolve v (removelast (p :: p0))); [|intros _; exact I].
+  intros H. apply negb_true_iff in H. exact H.
+Qed.
+Definition ntp_valsb (t2 : value) (d : delta) : bool := forallb (fun cc => ntpb t2 (vc_path cc)) (d_val (reverse d)).
+Lemma ntp_valsb_sound t2 d : ntp_valsb t2 d = true -> forall cc, In cc (d_val (reverse d)) -> ntp t2 (vc_path cc).
+Proof. intros H cc Hcc. apply ntpb_sound. eapply forallb_forall in H; eassumption. Qed.
+Definition ops_table_sorted2b (tbl : list (path * list opcode)) : bool := forallb (fun pe => ops_ok2 0 0 (snd pe)) tbl.
+
+Definition sx_c08hyp8 (indep disj sym kn ko nc nt s2 : bool) : sx :=
+  SL [sx_bool indep; sx_bool disj; sx_bool sym; sx_bool kn; sx_bool ko; sx_bool nc; sx_bool nt; sx_bool s2].
 
 Definition sx_c08hyp6 (indep disj sym kn ko nc : bool) : sx :=
   SL [sx_bool indep; sx_bool disj; sx_bool sym; sx_bool kn; sx_bool ko; sx_bool nc].
